@@ -32,6 +32,7 @@ import (
 const (
 	// See: https://httpwg.org/specs/rfc7540.html#SettingValues
 	initialMaxFrameSize       = 16384
+	maxAllowedFrameSize       = 1<<24 - 1
 	initialMaxHeaderTableSize = 4096
 
 	// See: https://tools.ietf.org/html/rfc7540#section-6.9.2
@@ -270,6 +271,11 @@ func (r *relay) processFrame(f http2.Frame) error {
 				case http2.SettingInitialWindowSize:
 					initialWindowSize, hasInitialWindowSize = s.Val, true
 				case http2.SettingMaxFrameSize:
+					// Values outside this range are a connection error of type PROTOCOL_ERROR (RFC 7540,
+					// section 6.5.2). A value of 0 would also make the split loop in `data` spin forever.
+					if s.Val < initialMaxFrameSize || s.Val > maxAllowedFrameSize {
+						return http2.ConnectionError(http2.ErrCodeProtocol)
+					}
 					r.peer.updateMaxFrameSize(s.Val)
 				}
 				settings = append(settings, s)
